@@ -124,7 +124,9 @@ def check_raises(ctx, R="C10.raises"):
     # makeSyntaxError itself raises ScenicParseError with the node's position
     mk = model.func(CO, "Transformer.makeSyntaxError")
     t = unparse(mk)
-    if "raise ScenicParseError(e)" in t and "e.lineno = node.lineno" in t:
+    ev = lib.locals_assigned(mk, lambda v: isinstance(v, ast.Call) and dotted(v.func) == "SyntaxError")
+    nd = mk.args.args[2].arg if len(mk.args.args) >= 3 else "node"
+    if len(ev) == 1 and f"raise ScenicParseError({ev[0]})" in t and f"{ev[0]}.lineno = {nd}.lineno" in t:
         ctx.ok(R, mk, "makeSyntaxError raises ScenicParseError located at the node")
     else:
         ctx.finding(R, mk, "makeSyntaxError", "Transformer.makeSyntaxError no longer raises a ScenicParseError carrying node.lineno")
